@@ -131,13 +131,14 @@ C07_Holds(cs) ==
 
 (* ----------------------------- C15: comments ---------------------------- *)
 Containers == {"block", "defs", "struct", "interface", "caseblock", "file"}
-CmtClasses == {"plain", "codelike", "brace", "quote", "slashes", "nl", "nlend"}
+CmtClasses == {"plain", "codelike", "brace", "quote", "slashes", "nl", "nlend", "buildtag"}
 CmtText(cl) ==
   CASE cl = "plain"    -> CmtS("note", "line")
     [] cl = "codelike" -> CmtS("x := f(1)", "line")
     [] cl = "brace"    -> CmtS("} ) ]", "line")
     [] cl = "quote"    -> CmtS("say \"hi", "line")
     [] cl = "slashes"  -> CmtS("see a // b", "line")
+    [] cl = "buildtag" -> CmtS("+build ignore", "line")     \* text the standard formatter itself interprets (known finding F11)
     [] cl = "nl"       -> CmtS("one\ntwo", "block")
     [] cl = "nlend"    -> CmtS("one\ntwo\n", "blocknl")
 \* items are the statements a1, a2, a3; the comment is an item of its own (before item pos, pos = n+1: last)
